@@ -1,4 +1,5 @@
 import TaskctlVerif.Model.Graph
+import TaskctlVerif.Model.Sched
 /-!
 Line-protocol oracle: one case per line on stdin (`<family> <payload>`), one observation per line on
 stdout.  Compiled from exactly the definitions the theorems are about (core Lean only).
@@ -27,10 +28,48 @@ def graphCase (payload : String) : String :=
     let froms := names.map fun n => s!"from {n}={",".intercalate (Graph.fromOf es n)}"
     "ok|" ++ "|".intercalate (tos ++ froms)
 
+/-! ### scheduler cases -/
+
+def kv (fields : List String) (key : String) : String :=
+  match fields.find? (fun f => f.startsWith (key ++ "=")) with
+  | some f => (f.drop (key.length + 1)).toString
+  | none => ""
+
+def natList (s : String) (sep : String) : List Nat :=
+  (splitNonEmpty s sep).filterMap (·.toNat?)
+
+def statusCode : Sched.Status → Nat
+  | .waiting => 0 | .running => 1 | .skipped => 2 | .done => 3 | .error => 4 | .canceled => 5
+
+/-- `sched n=4 deps=-;0;0;1,2 allow=0010 cond=nnfn ok=1101 rel=0|2,1|3` -/
+def schedCase (fields : List String) : String :=
+  let n := (kv fields "n").toNat?.getD 0
+  let depsL : List (List Nat) := ((kv fields "deps").splitOn ";").map fun d => if d = "-" then [] else natList d ","
+  let allowL := (kv fields "allow").toList.map (· == '1')
+  let okL := (kv fields "ok").toList.map (· == '1')
+  let condL : List Sched.Cond := (kv fields "cond").toList.map fun ch =>
+    match ch with
+    | 't' => .meets | 'f' => .fails | 'e' => .err | _ => .none
+  let c : Sched.Cfg := { deps := fun s => depsL.getD s [], allow := fun s => allowL.getD s false,
+                         cond := fun s => condL.getD s .none }
+  let rel : List (List Nat) := (splitNonEmpty (kv fields "rel") "|").map fun b => natList b ","
+  let inflight (σ : Sched.St) : String :=
+    ",".intercalate (((List.range n).filter fun s => decide (σ.g s = .inRun)).map toString)
+  let settle (σ : Sched.St) : Sched.St := Sched.passes c n (n + 2) σ
+  let σ0 := settle Sched.init
+  let (σ, qs) := rel.foldl (fun (acc : Sched.St × List String) batch =>
+      let σ1 := batch.foldl (fun σ s => Sched.step c (Sched.step c σ (.ret s (okL.getD s true))) (.post s)) acc.1
+      let σ2 := settle σ1
+      (σ2, acc.2 ++ ["q=" ++ inflight σ2])) (σ0, ["q=" ++ inflight σ0])
+  let final := ",".intercalate ((List.range n).map fun s => toString (statusCode (σ.status s)))
+  let runs := ",".intercalate ((List.range n).map fun s => toString (σ.starts s))
+  "|".intercalate qs ++ s!"|final={final}|err={if σ.gerr then 1 else 0}|runs={runs}"
+
 def handle (line : String) : String :=
   let line := line.trimAscii.toString
   match line.splitOn " " with
   | "graph" :: rest => graphCase (" ".intercalate rest)
+  | "sched" :: rest => schedCase rest
   | _ => "bad-op"
 
 partial def loop (h : IO.FS.Stream) (out : IO.FS.Stream) : IO Unit := do
